@@ -196,3 +196,21 @@ extern "C" void vp_nl_blstep()
    }
    vp_witness("end");
 }
+
+/* NL-CANINC (C20): the first / last newline of a file may not grow when nl_start_of_file / nl_end_of_file
+ * is set - this is what lets do_blank_lines squeeze it to one line so that newlines_eat_start_end() can
+ * produce exactly the configured number. Shapes [NEWLINE, WORD] and [WORD, NEWLINE] (VP_KINDS). */
+extern "C" void vp_nl_caninc()
+{
+   vp_havoc_options();
+   vp_build_list(true);
+   bool leading = vp_chunks[0]->Is(CT_NEWLINE);
+   Chunk *nl = leading ? vp_chunks[0] : vp_chunks[K - 1];
+   bool r = can_increase_nl(nl);
+   if (!options::nl_squeeze_ifdef())
+   {
+      if (leading) { vp_assert(r == (options::nl_start_of_file() == IARF_IGNORE), "C20:whether the leading newline may grow is not governed by nl_start_of_file"); }
+      else { vp_assert(r == (options::nl_end_of_file() == IARF_IGNORE), "C20:whether the trailing newline may grow is not governed by nl_end_of_file"); }
+   }
+   vp_witness("end");
+}
